@@ -317,6 +317,13 @@ func RsaDecryptWithPublicKey(ciphertext []byte, publicKey RsaPublicKey) ([]byte,
 	}
 
 	m := new(big.Int).SetBytes(ciphertext)
+
+	// RSAVP1 (RFC 8017 s5.2.2): the signature representative must be in the range [0, n-1]
+	// (otherwise s+n verifies like s, i.e. a different byte string is accepted as the same signature)
+	if m.Cmp(publicKey.N) >= 0 {
+		return nil, fmt.Errorf("[RsaDecryptWithPublicKey] signature representative out of range")
+	}
+
 	e := big.NewInt(int64(publicKey.E))
 	c := new(big.Int).Exp(m, e, publicKey.N)
 
